@@ -514,19 +514,43 @@ class Proofs:
         # honest pruning of the state: everything except the path to our account
         acc_dict_root = state.refs[1]
         prune_acc = rng.random() < 0.6 and kind != 'none'
-        neighbours = set()
-        for other in ids[1:]:
-            oc = T.cell_of(T.enc_account, accounts[int.from_bytes(other, 'big')]['account'])
-            if rng.random() < 0.7:
-                neighbours.add(oc.hash)
-        chosen = set(neighbours)
-        if rng.random() < 0.8:
-            chosen.add(state.refs[0].hash)        # out_msg_queue_info
-        if rng.random() < 0.8:
-            chosen.add(state.refs[2].hash)        # ^[ overload_history ... ]
-        if prune_acc:
-            chosen.add(acc_cell.hash)
-        state_child = prune(state, chosen)
+        marker = {h: rc.bytes_to_bits(accounts[int.from_bytes(h, 'big')]['last_trans_hash']) for h in ids}      # unique per dictionary leaf
+
+        def state_proof_for(target, prune_target_account, p_branch=0.5):
+            """(pruned state, ids whose dictionary branch was pruned away): account cells of other accounts, whole sibling branches of the dictionary
+            path to `target`, the out-queue and the tail cell are replaced by pruned branches at random"""
+            reach = {}
+
+            def reaches(c, mk):
+                k = (c.hash, mk)
+                if k not in reach:
+                    reach[k] = (c.type == rc.ORD and mk in c.bits) or any(reaches(x, mk) for x in c.refs if x.type == rc.ORD)
+                return reach[k]
+            chosen, gone = set(), set()
+            node = acc_dict_root.refs[0] if acc_dict_root.refs else None
+            while node is not None and marker[target] not in node.bits:
+                nxt = None
+                for ch in node.refs[:2]:
+                    if reaches(ch, marker[target]):
+                        nxt = ch
+                    elif rng.random() < p_branch:
+                        chosen.add(ch.hash)
+                        gone.update(o for o in ids if o != target and reaches(ch, marker[o]))
+                node = nxt
+            for other in ids:
+                if other != target and other not in gone and rng.random() < 0.7:
+                    chosen.add(T.cell_of(T.enc_account, accounts[int.from_bytes(other, 'big')]['account']).hash)
+            if rng.random() < 0.8:
+                chosen.add(state.refs[0].hash)        # out_msg_queue_info
+            if rng.random() < 0.8:
+                chosen.add(state.refs[2].hash)        # ^[ overload_history ... ]
+            tc = T.cell_of(T.enc_account, accounts[int.from_bytes(target, 'big')]['account'])
+            if prune_target_account:
+                chosen.add(tc.hash)
+            chosen.discard(tc.hash) if not prune_target_account else None
+            return prune(state, chosen), gone
+        state_child, gone_ids = state_proof_for(me, prune_acc)
+        R.count('dictionary_branches_pruned', len(gone_ids))
         bkeep = {block.refs[2].hash} | {x.hash for x in block.refs[2].refs}
         bcands = [c for c in prunable(block) if c.hash not in bkeep and c.type == rc.ORD]
         block_child = prune(block, set(c.hash for c in rng.sample(bcands, rng.randint(0, len(bcands)))))
@@ -548,6 +572,22 @@ class Proofs:
         R.cover('account_kinds', kind)
         R.cover('account_pruned', prune_acc)
         R.case(mon.fp('ap', block.hash, me), sample={k: W[k] for k in ('accounts', 'account_kind', 'account_pruned_in_proof')})
+        # ---------------- several accounts of one state, each proof pruned for its own account, checked one after the other (and the first again)
+        if n > 1:
+            seq = [ids[1], ids[-1], me]
+            for tgt in seq:
+                kind_t = 'none' if accounts[int.from_bytes(tgt, 'big')]['account'] is None else 'other'
+                child_t, _ = state_proof_for(tgt, rng.random() < 0.5 and kind_t != 'none')
+                proof_t = rc.encode_boc([bp, rc.make_merkle_proof(child_t)])
+                st_t, lib_t = try_build(T.cell_of(T.enc_account, accounts[int.from_bytes(tgt, 'big')]['account']))
+                if st_t != 'ok':
+                    continue
+                got_t = self.expect_accept('check_account_proof', lambda: cp.check_account_proof(proof_t, blk, Address((0, tgt)), lib_t, True),
+                                           dict(W, sequence='proofs for several accounts of one state in a row', target=tgt, proof_boc=proof_t if len(proof_t) < 3000 else None))
+                if got_t is not None:
+                    R.check(got_t.last_trans_hash == accounts[int.from_bytes(tgt, 'big')]['last_trans_hash'], 'account-descr-returned-in-sequence',
+                            'descriptor returned for the second/third account of one state is not the one stored under its address', dict(W, target=tgt))
+                R.count('same_state_sequences')
         # ---------------- forgeries
         me_bal = accounts[int.from_bytes(me, 'big')]['account']
         R.cover('account_extra_currencies', bool(me_bal and me_bal['storage']['balance'].get('other')))
@@ -589,6 +629,15 @@ class Proofs:
         st2, mp = try_build(rc.make_merkle_proof(rc.make_pruned(acc_cell, 1)))
         if st2 == 'ok':
             rej('claimed-state-is-merkle-proof-of-it', lambda: cp.check_account_proof(proof, blk, addr, mp))
+        # (1b) the empty cell as claimed state: for this account, and for an account whose dictionary branch the proof has pruned away
+        st2, empty = try_build(rc.RC(''))
+        if st2 == 'ok':
+            rej('claimed-state-is-empty-cell', lambda: cp.check_account_proof(proof, blk, addr, empty))
+            for g in sorted(gone_ids)[:2]:
+                rej('claimed-empty-cell-for-account-in-pruned-branch', lambda: cp.check_account_proof(proof, blk, Address((0, g)), empty), other_address=g)
+                st3, gl = try_build(T.cell_of(T.enc_account, accounts[int.from_bytes(g, 'big')]['account']))
+                if st3 == 'ok':
+                    rej('true-state-of-account-in-pruned-branch', lambda: cp.check_account_proof(proof, blk, Address((0, g)), gl), other_address=g)
         # (2) state root that does not match the block's update
         accounts2 = dict(accounts)
         k0 = int.from_bytes(me, 'big')
@@ -662,6 +711,8 @@ def run(R):
     R.floor('honest_nested', 40)
     R.floor('nested_pruned_masks', 3, 'set')          # level-2 / level-3 pruned branches (sparse masks) must have occurred
     R.floor('forgery_flag_True', 100)
+    R.floor('same_state_sequences', 20)
+    R.floor('dictionary_branches_pruned', 10)
     R.floor('account_extra_currencies', 2, 'set')
     R.floor('honest_check_account_proof', 20)
     R.floor('forgery_check_proof', 300)
